@@ -183,7 +183,58 @@ func C18(c *Ctx) {
 				}
 			}
 		}
+		// a call of a local closure variable (take := func(ptr) bool {..}; take(k)) resolves to that closure
+		resolveLocal := func(call ssa.CallInstruction) *ssa.Function {
+			if h := core.StaticCallee(call); h != nil {
+				return h
+			}
+			if call.Common().IsInvoke() {
+				return nil
+			}
+			v := call.Common().Value
+			if t := core.FuncValueTarget(core.Strip(v)); t != nil {
+				return t
+			}
+			if t := core.FuncValueTarget(core.VarIdentity(v)); t != nil {
+				return t
+			}
+			// a captured variable holding the closure: the single store into its cell in the enclosing function
+			if u, ok := v.(*ssa.UnOp); ok {
+				if fv, ok := u.X.(*ssa.FreeVar); ok {
+					for _, pf := range cands {
+						for _, b := range pf.Blocks {
+							for _, in := range b.Instrs {
+								if st, ok := in.(*ssa.Store); ok {
+									if al, ok := st.Addr.(*ssa.Alloc); ok && al.Comment == fv.Name() {
+										if t := core.FuncValueTarget(st.Val); t != nil {
+											return t
+										}
+									}
+								}
+							}
+						}
+					}
+				}
+			}
+			return nil
+		}
+		// closures that are local helpers of another candidate (called from it) are judged at their call sites
+		localHelper := map[*ssa.Function]bool{}
 		for _, f := range cands {
+			for _, call := range core.Calls(f) {
+				if h := resolveLocal(call); h != nil && h != f && h.Parent() != nil {
+					for _, cf := range cands {
+						if cf == h {
+							localHelper[h] = true
+						}
+					}
+				}
+			}
+		}
+		for _, f := range cands {
+			if localHelper[f] {
+				continue
+			}
 			isBatched := func(v ssa.Value) bool { return core.Mentions(v, fieldNamed("batchedTxs")) }
 			isIncludeDirect := or(func(in ssa.Instruction) bool {
 				mu, ok := in.(*ssa.MapUpdate)
@@ -199,7 +250,7 @@ func C18(c *Ctx) {
 				if !ok {
 					return false
 				}
-				h := core.StaticCallee(call)
+				h := resolveLocal(call)
 				return h != nil && h != f && len(h.Blocks) > 0 && core.PkgOf(h) == core.PkgOf(gb) && len(sites(h, isIncludeDirect)) > 0
 			}
 			if len(sites(f, isInclude)) == 0 {
@@ -208,7 +259,7 @@ func C18(c *Ctx) {
 			if len(sites(f, isIncludeDirect)) == 0 {
 				// pairing inside the helper(s): every helper that appends a key marks the same key and vice versa
 				for _, x := range sites(f, isInclude) {
-					h := core.StaticCallee(x.(ssa.CallInstruction))
+					h := resolveLocal(x.(ssa.CallInstruction))
 					nApp := len(sites(h, appendsWhere(func(dst ssa.Value) bool { return strings.Contains(dst.Type().String(), "orderedIndexKey") })))
 					nMark := len(sites(h, func(in ssa.Instruction) bool { mu, ok := in.(*ssa.MapUpdate); return ok && isBatched(mu.Map) }))
 					okPair := nApp == 1 && nMark == 1
@@ -284,7 +335,7 @@ func C18(c *Ctx) {
 			nIncl += c.behindEdges("R18.2", "generateBlock", f, es, isInclude, "predecessor batched or nonce == commit nonce", "inclusion into the batch")
 			for _, x := range sites(f, isInclude) {
 				if !isIncludeDirect(x) { // a helper call stands for the mark and the append it performs
-					nIncl += len(sites(core.StaticCallee(x.(ssa.CallInstruction)), isIncludeDirect)) - 1
+					nIncl += len(sites(resolveLocal(x.(ssa.CallInstruction)), isIncludeDirect)) - 1
 				}
 			}
 
@@ -395,7 +446,44 @@ func C18(c *Ctx) {
 					}
 				}
 				for _, ret := range core.Returns(f) {
-					if rs.Has(ret) {
+					if !rs.Has(ret) {
+						continue
+					}
+					// a local helper that reports the size test to its caller (return len(batch) == size), every call of
+					// which is the condition of a branch
+					okRet := false
+					if localHelper[f] && len(ret.Results) == 1 {
+						if bo, isBO := ret.Results[0].(*ssa.BinOp); isBO && (bo.Op == token.EQL || bo.Op == token.GEQ) && core.Mentions(bo.X, func(v ssa.Value) bool {
+							cc, ok := v.(*ssa.Call)
+							if !ok {
+								return false
+							}
+							b, ok := cc.Call.Value.(*ssa.Builtin)
+							return ok && b.Name() == "len"
+						}) {
+							okRet = true
+							for _, g := range cands {
+								for _, call := range core.Calls(g) {
+									if resolveLocal(call) != f {
+										continue
+									}
+									cv, isVal := call.(*ssa.Call)
+									tested := false
+									if isVal {
+										for _, ref := range *cv.Referrers() {
+											if _, isIf := ref.(*ssa.If); isIf {
+												tested = true
+											}
+										}
+									}
+									if !tested {
+										okRet = false
+									}
+								}
+							}
+						}
+					}
+					if !okRet {
 						bad = true
 					}
 				}
@@ -513,26 +601,36 @@ func C18(c *Ctx) {
 // c18CommitNonce: R18.6.
 func (c *Ctx) c18CommitNonce() {
 	r := c.R
-	fn := c.fn("R18.6", "pkg/order/mempool.(*nonceCache).updateCommittedNonce")
-	if fn == nil {
-		return
+	// the hand-over loop lives in nonceCache.updateCommittedNonce; when that helper was inlined into its caller the same
+	// obligation holds wherever the pool calls setCommitNonce in a loop over the reported nonces
+	var where []*ssa.Function
+	if fn := c.P.Fn("pkg/order/mempool.(*nonceCache).updateCommittedNonce"); fn != nil {
+		where = []*ssa.Function{fn}
+	} else {
+		for _, f := range c.P.ModuleFuncs(true) {
+			if core.PkgOf(f) == "pkg/order/mempool" && f.Name() != "setCommitNonce" {
+				where = append(where, f)
+			}
+		}
 	}
 	n := 0
-	for _, call := range core.Calls(fn) {
-		if !strings.HasSuffix(core.CalleeName(call), "nonceCache).setCommitNonce") || len(call.Common().Args) < 3 {
-			continue
+	for _, fn := range where {
+		for _, call := range core.Calls(fn) {
+			if !strings.HasSuffix(core.CalleeName(call), "nonceCache).setCommitNonce") || len(call.Common().Args) < 3 || !core.InLoop(call) {
+				continue
+			}
+			n++
+			val := call.Common().Args[2]
+			over, idx, ok := rangeOver(val)
+			isMap := false
+			if ok {
+				_, isMap = over.Type().Underlying().(*types.Map)
+			}
+			r.Check(ok && idx == 2 && isMap, "R18.6", fmt.Sprintf("%s: setCommitNonce #%d stores the reported nonce", fn.Name(), n), c.P.Pos(call.Pos()), "the value of the ranged map, unchanged",
+				"the nonce stored as commit nonce is not (on every path) the one reported for the account: after an out-of-order commit the pool believes an older nonce is the committed one, and generateBlock batches transactions below the committed nonce again")
 		}
-		n++
-		val := call.Common().Args[2]
-		over, idx, ok := rangeOver(val)
-		isParam := false
-		if ok {
-			_, isParam = core.Strip(over).(*ssa.Parameter)
-		}
-		r.Check(ok && idx == 2 && isParam, "R18.6", fmt.Sprintf("updateCommittedNonce: setCommitNonce #%d stores the reported nonce", n), c.P.Pos(call.Pos()), "the value of the ranged map, unchanged",
-			"the nonce stored as commit nonce is not (on every path) the one reported for the account: after an out-of-order commit the pool believes an older nonce is the committed one, and generateBlock batches transactions below the committed nonce again")
 	}
-	r.Floor("R18.6", "setCommitNonce calls in updateCommittedNonce", n, 1)
+	r.Floor("R18.6", "setCommitNonce calls in a loop over the reported nonces", n, 1)
 }
 
 const batchedMarkText = "a batched mark leaves only with its transaction: the pool remembers in batchedTxs which (account, nonce) it has already handed to consensus, and generateBlock skips those; every delete(batchedTxs, k) takes k from the pool entry found in txHashMap for a hash of the reported commit list (the transaction that is being removed), never from a sweep over batchedTxs itself or from heights / ages - a mark removed while its batch is still in flight lets the same transaction be batched into a second block (shared by C18 R18.7 and C20 R20.9)."
